@@ -44,9 +44,9 @@ def read_wt(root, docs="docs.txt"):
         return m.group(1) if m else "<not found in: %r>" % text[-80:]
     text = open(os.path.join(root, "bumpver.toml"), errors="replace").read()
     cfg = find(r'current_version = "([^"]*)"', text)
-    second = re.search(r"^# release (\S+)$", text, re.M)
-    if second and second.group(1) != cfg:
-        cfg = "%s (but the second occurrence in the config file says %s)" % (cfg, second.group(1))
+    for second in (re.search(r"^# release (\S+)$", text, re.M), re.search(r'^version = "([^"]*)"$', text, re.M)):
+        if second and second.group(1) != cfg:
+            cfg = "%s (but the second occurrence in the config file says %s)" % (cfg, second.group(1))
     a = open(os.path.join(root, "a.txt"), errors="replace").read()
     lines = open(os.path.join(root, docs), errors="replace").read().split("\n")
     return {"cfg": cfg, "ver": find(r"ver=(\S+)", a), "pep": find(r"pep=(\S*)", a), "part": lines[1] if len(lines) > 1 else "<docs file has one line>"}
@@ -70,11 +70,13 @@ def replay(job):
         respell = idx % 3 == 1
         docs = "release notes.txt" if idx % 3 == 2 else "docs.txt"        # every third history: a configured file whose name git quotes in its status output
         pre = "./" if respell else ""
-        proj.write("bumpver.toml", project.bumpver_toml(prj["v0"], prj["pattern"], [(pre + "bumpver.toml", ['current_version = "{version}"'] + (["# release {version}"] if respell else [])),
+        # every fifth history: the config file lists itself with the pattern of a [project] table only (version = "..."), which finds the current_version line as well
+        embedded = idx % 5 == 4 and not respell
+        proj.write("bumpver.toml", project.bumpver_toml(prj["v0"], prj["pattern"], [(pre + "bumpver.toml", ['version = "{version}"'] if embedded else ['current_version = "{version}"'] + (["# release {version}"] if respell else [])),
                                                                                     (pre + "a.txt", ["ver={version}", "pep={pep440_version}"]),
                                                                                     (docs, [prj["partial"]])],       # a file with a PARTIAL pattern only
                                                         commit=True, tag=True, push=False, extra={"tag_scope": ([s["scope"] for s in hist if s["act"] == "update"] or ["default"])[0]})
-                   + ("\n# release %s\n" % prj["v0"] if respell else ""))
+                   + ("\n# release %s\n" % prj["v0"] if respell else "") + ('\n[project]\nname = "demo"\nversion = "%s"\n' % prj["v0"] if embedded else ""))
         # both occurrences on ONE line, the pattern listed second to the left of the one listed first (replacements must not depend on the order of the patterns)
         proj.write("a.txt", "intro\npep=%s ver=%s\n" % (pep0, prj["v0"]))
         part0 = v2version.format_version(v2version.parse_version_info(prj["v0"], prj["pattern"]), prj["partial"])
